@@ -699,3 +699,98 @@ func VerifC20BadBranches() {
 	}
 	vassert(err != nil, "a nil branch, a branch without targets or a branch to an unknown node is rejected with an error")
 }
+
+// Compiling an unchanged builder again gives the same verdict and an equivalent runnable (graph, chain, workflow
+// with deferred inputs, a branch and a static value); a modification attempted after a successful Compile is
+// never silently lost: it is reported by the call itself or by the next Compile, and never becomes part of a
+// later runnable.
+func VerifC20Recompile() {
+	ctx := context.Background()
+	vcfg("fifo", 1)
+	kind := vchoose("kind", 3)
+	lateKind := vchoose("late", 4) // 0 none, 1.. a modification attempted after Compile
+	late := lateKind != 0
+	if kind != 2 && lateKind > 1 {
+		return
+	}
+	x := vsymInt("x")
+	in := map[string]any{"in": x}
+	switch kind {
+	case 0:
+		g := NewGraph[map[string]any, map[string]any]()
+		_ = g.AddLambdaNode("a", vNode("a", nil))
+		_ = g.AddEdge(START, "a")
+		_ = g.AddEdge("a", END)
+		r1, e1 := g.Compile(ctx)
+		vassert(e1 == nil, "graph compiles")
+		if late {
+			vassert(errors.Is(g.AddLambdaNode("late", vNode("late", nil)), ErrGraphCompiled), "late AddNode is refused")
+		}
+		r2, e2 := g.Compile(ctx)
+		vassert(e2 == nil, "compiling the unchanged graph again succeeds as well")
+		o1, _ := r1.Invoke(ctx, in)
+		o2, _ := r2.Invoke(ctx, in)
+		vassert(vMapEq(o1, o2), "both compilations of the graph behave alike")
+	case 1:
+		ch := NewChain[map[string]any, map[string]any]()
+		ch.AppendLambda(vNode("a", nil))
+		r1, e1 := ch.Compile(ctx)
+		vassert(e1 == nil, "chain compiles")
+		if late {
+			ch.AppendLambda(vNode("late", nil))
+			_, e2 := ch.Compile(ctx)
+			vassert(e2 != nil, "an Append refused after Compile is reported by the next Compile (the chain's only error channel)")
+			return
+		}
+		r2, e2 := ch.Compile(ctx)
+		vassert(e2 == nil, "compiling the unchanged chain again succeeds as well")
+		o1, _ := r1.Invoke(ctx, in)
+		o2, _ := r2.Invoke(ctx, in)
+		vassert(vMapEq(o1, o2), "both compilations of the chain behave alike")
+	case 2:
+		type midS struct {
+			V int
+			S int
+			T int
+		}
+		wf := NewWorkflow[map[string]any, map[string]any]()
+		wf.AddLambdaNode("a", InvokableLambda(func(ctx context.Context, in map[string]any) (int, error) {
+			v, _ := in["in"].(int)
+			return vsymUF("f_a", v), nil
+		})).AddInput(START)
+		nb := wf.AddLambdaNode("b", InvokableLambda(func(ctx context.Context, in midS) (map[string]any, error) {
+			return map[string]any{"b": vsymUF("f_b", in.V), "s": in.S, "t": in.T}, nil
+		}))
+		nb.AddInputWithOptions("a", []*FieldMapping{ToField("V")}, WithNoDirectDependency()).SetStaticValue(FieldPath{"S"}, 7)
+		wf.AddLambdaNode("c", vNode("c", nil)).AddInput(START)
+		wf.AddBranch("a", NewGraphBranch(func(ctx context.Context, in int) (string, error) { return "b", nil }, map[string]bool{"b": true, "c": true}))
+		wf.End().AddInput("b")
+		r1, e1 := wf.Compile(ctx)
+		vassert(e1 == nil, "workflow compiles")
+		o1, _ := r1.Invoke(ctx, in)
+		vassert(o1["s"] == 7 && o1["t"] == 0, "static value delivered")
+		if late {
+			switch lateKind {
+			case 1:
+				nb.SetStaticValue(FieldPath{"T"}, 9)
+			case 2:
+				wf.AddBranch("a", NewGraphBranch(func(ctx context.Context, in int) (string, error) { return "c", nil }, map[string]bool{"b": true, "c": true}))
+			case 3:
+				nb.AddInputWithOptions(START, []*FieldMapping{MapFields("in", "T")}, WithNoDirectDependency())
+			}
+			r2, e2 := wf.Compile(ctx)
+			vassert(e2 != nil, "a static value, branch or input added after a successful Compile is reported by the next Compile")
+			if e2 == nil {
+				o2, _ := r2.Invoke(ctx, in)
+				vassert(vMapEq(o1, o2), "a modification after a successful Compile does not become part of a later runnable")
+			}
+			o3, _ := r1.Invoke(ctx, in)
+			vassert(vMapEq(o1, o3), "the first runnable is unaffected")
+			return
+		}
+		r2, e2 := wf.Compile(ctx)
+		vassert(e2 == nil, "compiling the unchanged workflow again succeeds as well")
+		o2, _ := r2.Invoke(ctx, in)
+		vassert(vMapEq(o1, o2), "both compilations of the workflow behave alike")
+	}
+}
